@@ -20,6 +20,8 @@ type GenCfg struct {
 	SmallNonce  bool
 	NoNative    bool
 	NoTopNull   bool // no null as a top-level args/meta value (known finding C07/toplevel-null-value)
+	WideInts    bool // args / meta values may hold integers of the whole int64 range (and beyond, as uint64 nodes);
+	// whether a constructor takes them is the constructor's decision, not the generator's
 }
 
 var cmdPool = []string{"/", "/foo", "/foo/bar", "/crud/create", "/a/b/c/d", "/é/x", "/msg/send"}
@@ -77,7 +79,11 @@ func genKVs(t *rapid.T, cfg GenCfg, label string, max int) []KVal {
 			continue
 		}
 		seen[k] = true
+		if cfg.WideInts && rapid.IntRange(0, 5).Draw(t, label+"_wide") == 0 {
+			vc.SafeInts, vc.Hostile = false, true
+		}
 		v := val.Gen(t, vc)
+		vc.SafeInts, vc.Hostile = cfg.Values.SafeInts, cfg.Values.Hostile
 		if v.K == "null" && cfg.NoTopNull {
 			v = val.List(val.Null())
 		}
